@@ -77,6 +77,10 @@ CLAIMS = {
   text="Kernel-checked theorems (Props/C12.lean) on the same model plus check_command/_handle_file_path/check_file: with the working directory at the root, for a relative file path, its parent directory, the root and an absolute directory, check lists exactly the functions longer than 30 (generated threshold) that scan measures for the file, longest first (stable), with the same decoding; excluded files are skipped however reached, hidden files when reached through a directory, every scanned file is checked (check_root_agrees_with_scan, scanned_file_checked_by_path/through_directory, excluded_file_skipped, hidden_file_skipped_through_directory). Correspondence: real check_command output vs scan_path on random trees for every file and every way of reaching it.",
   note="Outside the property and recorded, not judged: absolute file arguments get no exclusion test; hidden components of the directory argument itself are not tested; directories outside the working directory get no exclusions.",
   design="6/C12", technique="Lean 4 proof relating the check and scan selection models + correspondence on real trees"),
+ "C01": dict(
+  text="Staged. (A, proved: Props/C01.lean, Spec/Layout.lean) for every token list and every canonical layout - an algorithm-independent description: functions in source order, brace blocks laminar (proved for every getBlocks output), each body the first block at/after its header's end, nothing straddling, no block starting directly at a body's end - the pipeline returns exactly the expected measurements: each function paired with its own body even with brace groups in the parameter list and headers in any order (scopes_of_layout_partial), parent = innermost enclosing function at every depth (fold_of_layout), length = distinct lines of own tokens incl. the token right after a nested function (count_of_layout), span = first header token .. just past the body's last token (scan_of_layout_partial; flat variant for C). The comparison primitives of the model are proved equal to the source-regenerated ones (Lemmas/GenTie.lean). (B) that the shipped patterns find exactly the canonical headers, the Python indentation stage, and the lexers' token classes are tied by a three-way correspondence on generated programs of all 7 languages: real analysis = Lean model = per-token expectation computed from the program tree, incl. an exhaustive body-length sweep 1..75.",
+  note="Partial: Stage A covers brace-block languages; header discovery relies on C13-C15 (engine semantics, unambiguity, shape of every match) plus correspondence; the Python block stage is correspondence-only. `_partial` because the full Stage A statement fails when a block starts directly at a body's end (kernel-checked witness adjacent_block_is_merged; excluded from the canonical fragment, Appendix A).",
+  design="6.1/C01", technique="Lean 4 proof (layout -> measurements) + three-way correspondence with a per-token expectation"),
 }
 
 NA_REASON = "check under construction in this round (see DESIGN.md section 6); not yet claimed"
